@@ -8,6 +8,11 @@
    Tokenizer; the significant token sequence must equal Sig(program) - which does not depend on the layout -
    with CPython's tokenize as referee (a disagreement between spec and CPython is a machinery error);
    the raw lexer tokens must tile the source and each recorded span must address exactly the token's text.
+3. spec/TokMunch.tla: the lexer proper as a transition system (one action per token domain, symbol lookup three,
+   two, one characters, the unary-minus look-ahead, the end of the text) against Python's maximal-munch rule;
+   TLC checks MunchAgrees / Progress on every run of symbol characters between operands (with and without
+   blanks and a final line break) and must find the counterexample when the lookup is single characters only;
+   every text goes through the real Tokenizer, the spec and CPython (clause MaximalMunch; tiling for all texts).
 """
 import io
 import json
@@ -43,6 +48,124 @@ def cpython_sig(text: str) -> list[tuple[str, str]]:
 	return res
 
 
+def _tiling(lexer, TokenTypes, text: str, layout) -> list[dict]:
+	"""raw tokens: tile the source, spans address the text"""
+	failures = []
+	raw = lexer.parse_impl(text)
+	line_starts = [0]
+	for i, ch in enumerate(text):
+		if ch == '\n':
+			line_starts.append(i + 1)
+
+	def offset_of(line: int, col: int) -> int:
+		return line_starts[line] + col if line < len(line_starts) else len(text)
+
+	pos = 0
+	for tok in raw:
+		sm = tok.source_map
+		b = offset_of(sm.begin_line, sm.begin_column)
+		e = offset_of(sm.end_line, sm.end_column)
+		piece = text[b:e]
+		expect = tok.string
+		if tok.type == TokenTypes.Minus and tok.string != '-':
+			expect = '-'
+		if tok.type in (TokenTypes.LineBreak, TokenTypes.WhiteSpace):
+			piece = piece.replace('\\\n', '')
+		if b != pos:
+			failures.append({'clause': 'RoundTrip', 'detail': f'raw token {tok.string!r} starts at {b}, previous ended at {pos}', 'text': text, 'layout': layout})
+			break
+		if piece != expect:
+			failures.append({'clause': 'SpanExact', 'detail': f'span of {tok.string!r} addresses {piece!r}', 'text': text, 'layout': layout})
+			break
+		pos = e
+	else:
+		if pos != len(text):
+			failures.append({'clause': 'RoundTrip', 'detail': f'raw tokens end at {pos}, source has {len(text)} characters', 'text': text, 'layout': layout})
+	return failures
+
+
+def _classify(TokenTypes, tok) -> tuple[str, str]:
+	t = tok.type
+	if t == TokenTypes.NewLine:
+		return ('newline', '')
+	if t == TokenTypes.Indent:
+		return ('indent', '')
+	if t == TokenTypes.Dedent:
+		return ('dedent', '')
+	if t == TokenTypes.Name:
+		return ('name', tok.string)
+	if t in (TokenTypes.Digit, TokenTypes.Decimal):
+		return ('number', tok.string)
+	if t == TokenTypes.String:
+		return ('string', tok.string)
+	if t == TokenTypes.Minus:
+		return ('op', '-')
+	return ('op', tok.string)
+
+
+def _check_munch(cases: list[dict]) -> dict:
+	"""TokMunch: the lexer's final state for every text - the tokens of a supported text are Python's (maximal munch)"""
+	from rogw.tranp.implements.syntax.tranp.token import TokenDefinition, TokenTypes
+	from rogw.tranp.implements.syntax.tranp.tokenizer import Lexer, Tokenizer
+	tokenizer = Tokenizer()
+	lexer = Lexer(TokenDefinition())
+	failures, machinery, supported, drift = [], [], 0, []
+	for case in cases:
+		text = case['text']
+		layout = {'munch': True}
+		try:
+			failures += _tiling(lexer, TokenTypes, text, layout)
+		except Exception as e:
+			failures.append({'clause': 'RoundTrip', 'detail': f'the lexer raises {type(e).__name__}: {str(e)[:80]}', 'text': text, 'layout': layout})
+			continue
+		if not case['supported']:
+			continue
+		supported += 1
+		ref = [(t['c'], t['s']) for t in case['ref']]
+		model = [(t['c'], t['s']) for t in case['toks']]
+		try:
+			py = cpython_sig(text)
+			py_kinds = cpython_minus_kinds(text)
+		except (tokenize.TokenError, IndentationError, SyntaxError) as e:
+			machinery.append(f'CPython rejects a supported text: {type(e).__name__} {text!r}')
+			continue
+		if py != ref:
+			machinery.append(f'spec (Ref) and CPython disagree on {text!r}: spec {ref} cpython {py}')
+			continue
+		if py_kinds != model:
+			machinery.append(f'the lexer model and CPython\'s token positions disagree on which minus signs touch their operand in {text!r}: model {model} cpython {py_kinds}')
+			continue
+		try:
+			toks = tokenizer.parse(text)
+		except Exception as e:
+			failures.append({'clause': 'MaximalMunch', 'detail': f'{type(e).__name__}: {str(e)[:100]}', 'text': text, 'layout': layout})
+			continue
+		got = [_classify(TokenTypes, t) for t in toks]
+		got_kinds = [('uminus', '-') if t.type == TokenTypes.Minus and t.string != '-' else c for t, c in zip(toks, got)]
+		if got != ref:
+			k = next((i for i, (a, b) in enumerate(zip(got, ref)) if a != b), min(len(got), len(ref)))
+			failures.append({'clause': 'MaximalMunch', 'detail': f'token #{k}: tranp {got[k:k + 3]} vs python {ref[k:k + 3]}', 'text': text, 'layout': layout})
+		elif got_kinds != model:
+			# which minus sign counts as the unary one is tranp's own convention: C13 leaves it open ("other than after
+			# a minus sign"), so a departure from the model is reported as a note; the own parser's sentences (C11) decide
+			k = next(i for i, (a, b) in enumerate(zip(got_kinds, model)) if a != b)
+			drift.append(f'{text!r}: token #{k} is {got_kinds[k][0]}, the lexer model has {model[k][0]}')
+	return {'failures': failures, 'machinery': machinery, 'supported': supported, 'drift': drift}
+
+
+def cpython_minus_kinds(text: str) -> list[tuple[str, str]]:
+	"""cpython_sig, with a minus sign that directly touches the next token on its line marked 'uminus' (positions from CPython's tokenizer)"""
+	toks = [t for t in tokenize.generate_tokens(io.StringIO(text).readline) if t.type not in (tokenize.COMMENT, tokenize.NL, tokenize.ENDMARKER)]
+	sig = cpython_sig(text)
+	res = []
+	for i, (t, c) in enumerate(zip(toks, sig)):
+		if t.type == tokenize.OP and t.string == '-' and i + 1 < len(toks) and toks[i + 1].type != tokenize.NEWLINE and toks[i + 1].start == t.end:
+			res.append(('uminus', '-'))
+		else:
+			res.append(c)
+	return res
+
+
 def _check(cases: list[dict]) -> dict:
 	from rogw.tranp.implements.syntax.tranp.token import TokenDefinition, TokenTypes
 	from rogw.tranp.implements.syntax.tranp.tokenizer import Lexer, Tokenizer
@@ -69,9 +192,6 @@ def _check(cases: list[dict]) -> dict:
 			return ('op', '-')
 		return ('op', tok.string)
 
-	def offset_of(text: str, line_starts: list[int], line: int, col: int) -> int:
-		return line_starts[line] + col if line < len(line_starts) else len(text)
-
 	for case in cases:
 		text = case['text']
 		sig = [(t['c'], t['s']) for t in case['sig']]
@@ -92,33 +212,7 @@ def _check(cases: list[dict]) -> dict:
 			k = next((i for i, (a, b) in enumerate(zip(got, sig)) if a != b), min(len(got), len(sig)))
 			failures.append({'clause': 'TokensEqualPython' if case['layout']['n'] == 0 else 'LayoutInsensitive', 'detail': f'token #{k}: tranp {got[k:k + 3]} vs python {sig[k:k + 3]}', 'text': text, 'layout': case['layout']})
 			continue
-		# raw tokens: tile the source, spans address the text
-		raw = lexer.parse_impl(text)
-		line_starts = [0]
-		for i, ch in enumerate(text):
-			if ch == '\n':
-				line_starts.append(i + 1)
-		pos = 0
-		for tok in raw:
-			sm = tok.source_map
-			b = offset_of(text, line_starts, sm.begin_line, sm.begin_column)
-			e = offset_of(text, line_starts, sm.end_line, sm.end_column)
-			piece = text[b:e]
-			expect = tok.string
-			if tok.type == TokenTypes.Minus and tok.string != '-':
-				expect = '-'
-			if tok.type in (TokenTypes.LineBreak, TokenTypes.WhiteSpace):
-				piece = piece.replace('\\\n', '')
-			if b != pos:
-				failures.append({'clause': 'RoundTrip', 'detail': f'raw token {tok.string!r} starts at {b}, previous ended at {pos}', 'text': text, 'layout': case['layout']})
-				break
-			if piece != expect:
-				failures.append({'clause': 'SpanExact', 'detail': f'span of {tok.string!r} addresses {piece!r}', 'text': text, 'layout': case['layout']})
-				break
-			pos = e
-		else:
-			if pos != len(text):
-				failures.append({'clause': 'RoundTrip', 'detail': f'raw tokens end at {pos}, source has {len(text)} characters', 'text': text, 'layout': case['layout']})
+		failures += _tiling(lexer, TokenTypes, text, case['layout'])
 	return {'failures': failures, 'machinery': machinery}
 
 
@@ -147,6 +241,19 @@ def run(ctx: Ctx) -> int:
 	for cfg in (['TokLayout_emit_2_2.cfg', 'TokLayout_emit_3_1.cfg', 'TokLayout_emit_deep.cfg'] if quick else ['TokLayout_emit_2_3.cfg', 'TokLayout_emit.cfg', 'TokLayout_emit_deep.cfg']):
 		res = tlc.run('TokLayout', cfg, workers=1, timeout=2400, heap='8g')
 		cases += [json.loads(line) for line in res.lines('CASE ')]
+	# the lexer proper: TokMunch.tla - the lexer as a transition system against Python's maximal-munch rule
+	munch_cfg = 'TokMunch_2.cfg' if quick else 'TokMunch_3.cfg'
+	munch = tlc.run('TokMunch', munch_cfg, workers=16, timeout=2400, heap='8g')
+	if not munch.ok:
+		raise Machinery(f'TLC: TokMunch.tla violates MunchAgrees / Progress as coded: {munch.out[-1200:]}')
+	pinned = tlc.run('TokMunch', 'TokMunch_pinned.cfg', workers=4, timeout=600)
+	if pinned.ok:
+		raise Machinery('TokMunch_pinned.cfg (single characters only) satisfies MunchAgrees: the invariant is vacuous')
+	emitted = tlc.run('TokMunch', 'TokMunch_emit2.cfg' if quick else 'TokMunch_emit3.cfg', workers=1, timeout=3000, heap='8g')
+	munch_cases = [json.loads(line) for line in emitted.lines('CASE ')]
+	if len(munch_cases) < 7000:
+		raise Machinery(f'TokMunch emitted {len(munch_cases)} texts only')
+	ctx.log(f'TLC: TokMunch {munch.distinct} lexer states, MunchAgrees / Progress hold as coded, violated with single-character lookup; {len(munch_cases)} texts emitted')
 	seen = {}
 	for c in cases:
 		seen.setdefault(c['text'], c)
@@ -154,11 +261,19 @@ def run(ctx: Ctx) -> int:
 	nproc = 16
 	with ProcessPoolExecutor(max_workers=nproc) as ex:
 		results = list(ex.map(_check, [cases[i::nproc] for i in range(nproc)]))
+		mresults = list(ex.map(_check_munch, [munch_cases[i::nproc] for i in range(nproc)]))
+	results += mresults
+	n_supported = sum(r['supported'] for r in mresults)
+	if n_supported < len(munch_cases) // 4:
+		raise Machinery(f'only {n_supported} of {len(munch_cases)} symbol-run texts are in the supported subset')
+	drift = [d for r in mresults for d in r['drift']]
+	if drift:
+		ctx.log(f'NOTE: the lexer departs from the model of the unary-minus convention on {len(drift)} texts (e.g. {drift[0]}); C13 leaves that convention open')
 	machinery = [m for r in results for m in r['machinery']]
 	if machinery:
 		raise Machinery(f'{len(machinery)} generated sources where spec and CPython disagree, e.g. {machinery[0]}')
 	failures = [f for r in results for f in r['failures']]
-	ctx.log(f'{len(cases)} distinct sources tokenized by tranp, CPython and the spec: {len(failures)} discrepancies')
+	ctx.log(f'{len(cases)} distinct sources and {len(munch_cases)} symbol-run texts ({n_supported} supported) tokenized by tranp, CPython and the spec: {len(failures)} discrepancies')
 	violations = []
 	groups: dict[str, list] = {}
 	for f in failures:
@@ -171,6 +286,10 @@ def run(ctx: Ctx) -> int:
 		'transitions': laws.generated,
 		'traces_validated_against_impl': len(cases),
 		'sources_tokenized': len(cases),
+		'symbol_run_texts': len(munch_cases),
+		'symbol_run_texts_supported': n_supported,
+		'lexer_states': munch.distinct,
+		'unary_minus_convention_departures': len(drift),
 		'three_way_agreement_spec_cpython': len(cases),
 		'exhaustive': True,
 		'bounds': {'logical_lines': 3, 'bodies': 10, 'rewrites': 2, 'indent_units': 4},
